@@ -38,6 +38,6 @@ STREAMS = [
                                    "sockfail_w": 0.05}, simprops.mon_c09, quick_n=500, thorough_n=12000, quick_ops=50, thorough_ops=200),
 ]
 
-LEVEL_TEXT = 'Proof: Lean 4 theorems that the server list order is (failures, index), every non-directed attempt goes to a server with the minimal failure count (the first such without rotation, one of the best with), success resets and failure demotes, probes go only to eligible failed servers as non-retrying cache-bypassing copies. Tie: correspondence on failure histories; the random pick is observed and checked for membership; monitor recomputes failure counts from the server-state callback stream.'
+LEVEL_TEXT = 'Proof: Lean 4 theorems that the server list order is (failures, index), every non-directed attempt goes to a server with the minimal failure count (the first such without rotation, one of the best with), success resets and failure demotes, probes go only to eligible failed servers as non-retrying cache-bypassing copies; over whole runs: every probe query is created for a failed server whose retry time has passed while the triggering request went to a different failure-free server, the completion of a probe touches nothing but the probe flag of its server, a server flagged as being probed always has a probe query in flight, and failures, cancel and early send failures release the flag (the pinned tree left it set for ever after a failed or cancelled probe: F48/F49-C09, repaired). Tie: correspondence on failure histories; the random pick is observed and checked for membership; monitor recomputes failure counts from the server-state callback stream.'
 LEVEL_NOTE = "Trusted: Lean kernel; model faithfulness; RNG hook. Probe non-interference with the user's query is proved only in the restricted form stated in CaresProps/C09.lean."
 TECHNIQUE = 'Lean 4 proof (sorted-list and policy lemmas) + differential correspondence with observed random picks'
